@@ -155,6 +155,43 @@ func C02(c *run.Ctx) {
 			s.Refresh(g.Latest, "", smuggle)
 			s.Sweep("refresh")
 		}
+		if gi%3 == 0 {
+			// a code whose authorization request was pushed: it is bound to the PUSHED redirect_uri, not to a stray one sent
+			// alongside the request_uri
+			pushedURI, stray := "https://app-b.example/cb", "https://app-b.example/cb2"
+			a := world.Basic("conf-b", "secret-of-b")
+			p := w.PAR(url.Values{"client_id": {"conf-b"}, "response_type": {"code"}, "scope": {"offline fosite"}, "state": {"state-0123456789"}, "redirect_uri": {pushedURI}}, a)
+			if p.Err == nil {
+				q := url.Values{"client_id": {"conf-b"}, "request_uri": {p.S("request_uri")}}
+				if gi%2 == 0 {
+					q.Set("redirect_uri", stray)
+				} else {
+					q.Set("redirect_uri", "")
+				}
+				az := w.Authorize(q, world.Consent{})
+				if code := az.Params.Get("code"); code != "" {
+					bad := w.Token(url.Values{"grant_type": {"authorization_code"}, "code": {code}, "redirect_uri": {stray}}, a)
+					c.Case(fmt.Sprintf("par-origin code redeemed with stray redirect_uri ok=%v err=%s", bad.Err == nil, bad.ErrName))
+					if bad.Err == nil {
+						c.Violate(run.Violation{Kind: "code-binding", Key: "code-binding par-origin wrongRedirect=true", Case: id, Detail: "a code from a pushed authorization request was redeemed with a redirect_uri other than the pushed one", History: s.Hist})
+					} else if bad.ErrName != "invalid_grant" {
+						c.Violate(run.Violation{Kind: "code-binding-error-class", Key: "code-binding-error-class par-origin", Case: id, Detail: "answered " + bad.ErrName, History: s.Hist})
+					} else {
+						none := w.Token(url.Values{"grant_type": {"authorization_code"}, "code": {code}}, a)
+						if none.Err == nil {
+							c.Violate(run.Violation{Kind: "code-binding", Key: "code-binding par-origin redirect omitted", Case: id, Detail: "a code from a pushed authorization request was redeemed without redirect_uri", History: s.Hist})
+						} else {
+							good := w.Token(url.Values{"grant_type": {"authorization_code"}, "code": {code}, "redirect_uri": {pushedURI}}, a)
+							c.Case(fmt.Sprintf("par-origin code redeemed with the pushed redirect_uri ok=%v", good.Err == nil))
+							if good.Err != nil {
+								c.Violate(run.Violation{Kind: "rightful-redeem-refused", Key: "rightful-redeem-refused par-origin", Case: id, Detail: "refused with the pushed redirect_uri: " + world.ErrDetail(good.Err), History: s.Hist})
+							}
+						}
+					}
+					c.Count("c02_par_origin_codes", 1)
+				}
+			}
+		}
 		for k := r.Intn(5); k > 0; k-- {
 			randStep(s, r, defaultWeights)
 			s.Sweep("step")
